@@ -24,7 +24,7 @@ import (
 // Stream c11.listeners: the whole way from the command line to the certificate a client is presented. Every
 // scenario starts the real fabio executable (built from the tree under test, no build tag) with one to three
 // certificate sources (-proxy.cs: type path, http or file) and two to four TLS listeners (-proxy.addr with
-// proto https / grpcs / prometheus, optionally -ui.addr with a certificate source), several listeners on one
+// proto https / grpcs / prometheus / tcp / https+tcp+sni, optionally -ui.addr with a certificate source), several listeners on one
 // source and with different strictmatch settings, and then performs real TLS handshakes against every listener
 // for a list of server names (also without SNI). A path source may go through a second epoch while the process
 // runs (the configured path runs through a symbolic link that is re-pointed; the new directory holds new
@@ -56,7 +56,7 @@ type lsnSrc struct {
 type lsnL struct {
 	Src    int    `json:"src"`
 	Strict string `json:"strict"` // value of strictmatch=; "" = option absent
-	Proto  string `json:"proto"`  // "" (https implied by cs=) | "https" | "grpcs" | "prometheus"
+	Proto  string `json:"proto"`  // "" (https implied by cs=) | "https" | "grpcs" | "prometheus" | "tcp" (TLS-terminating TCP proxy; the harness adds a route for the port) | "https+tcp+sni" (no route matches: the https side answers)
 	UI     bool   `json:"ui"`     // the listener of -ui.addr
 	Order  int    `json:"order"`  // in which order the options are written
 }
@@ -298,7 +298,7 @@ func lsnListenerArg(addr string, l lsnL, src string) string {
 	return addr + ";" + strings.Join(opts, ";")
 }
 
-func runLsnScn(sc lsnScn, srv *ldServer, prefix string) (lsnScnOut, error) {
+func runLsnScn(sc lsnScn, srv *ldServer, prefix, backend string) (lsnScnOut, error) {
 	out := lsnScnOut{Answers: [][][]int{}}
 	if len(sc.Sources) == 0 || len(sc.Sources) > 3 || len(sc.Listeners) == 0 || len(sc.Listeners) > 5 || len(sc.Reqs) == 0 || len(sc.Reqs) > 8 {
 		return out, fmt.Errorf("bad listeners scenario")
@@ -309,7 +309,7 @@ func runLsnScn(sc lsnScn, srv *ldServer, prefix string) (lsnScnOut, error) {
 			return out, fmt.Errorf("bad listener")
 		}
 		switch l.Proto {
-		case "", "https", "grpcs", "prometheus":
+		case "", "https", "grpcs", "prometheus", "tcp", "https+tcp+sni":
 		default:
 			return out, fmt.Errorf("bad proto")
 		}
@@ -452,6 +452,7 @@ func runLsnScn(sc lsnScn, srv *ldServer, prefix string) (lsnScnOut, error) {
 		}
 		held = append(held, uiPlain)
 		var proxy []string
+		routes := ""
 		ui := uiPlain.Addr().String()
 		for i, l := range sc.Listeners {
 			a := lsnListenerArg(addrs[i], l, "s"+strconv.Itoa(l.Src))
@@ -460,11 +461,16 @@ func runLsnScn(sc lsnScn, srv *ldServer, prefix string) (lsnScnOut, error) {
 			} else {
 				proxy = append(proxy, a)
 			}
+			if l.Proto == "tcp" {
+				// the TCP proxy looks its target up by the port of the listener
+				_, port, _ := net.SplitHostPort(addrs[i])
+				routes += fmt.Sprintf("route add tcp%d :%s tcp://%s\n", i, port, backend)
+			}
 		}
 		for _, l := range held {
 			l.Close()
 		}
-		args := []string{"-insecure", "-registry.backend", "static", "-registry.static.routes", "",
+		args := []string{"-insecure", "-registry.backend", "static", "-registry.static.routes", routes,
 			"-proxy.addr", strings.Join(proxy, ","), "-ui.addr", ui, "-proxy.cs", strings.Join(csArgs, ","),
 			"-log.level", "WARN"}
 		cmd = exec.Command(bin, args...)
@@ -533,7 +539,17 @@ func runLsnScn(sc lsnScn, srv *ldServer, prefix string) (lsnScnOut, error) {
 				set = sets[l.Src][epoch]
 			}
 			for _, name := range sc.Reqs {
-				ders, err := lsnHandshake(addrs[i], name, l.Proto == "grpcs")
+				// "no certificate" is the server's alert; anything else (a timeout or a reset on a machine that runs
+				// twenty checks at once) says nothing about the certificate and is tried again
+				var ders [][]byte
+				var err error
+				for try := 0; try < 5; try++ {
+					ders, err = lsnHandshake(addrs[i], name, l.Proto == "grpcs")
+					if err == nil || strings.Contains(err.Error(), "remote error: tls:") {
+						break
+					}
+					time.Sleep(time.Duration(300*(try+1)) * time.Millisecond)
+				}
 				v := -1
 				if err != nil {
 					if !lsnDialable(addrs[i]) {
@@ -644,6 +660,32 @@ func runLsn(raw json.RawMessage) (interface{}, error) {
 	}
 	defer srv.ln.Close()
 	go (&http.Server{Handler: srv}).Serve(srv.ln)
+	// what the TCP proxy listeners forward to: accepts and holds the connection until the case is over
+	bl, err := listenLoopback()
+	if err != nil {
+		return nil, err
+	}
+	defer bl.Close()
+	var held []net.Conn
+	var heldMu sync.Mutex
+	defer func() {
+		heldMu.Lock()
+		for _, c := range held {
+			c.Close()
+		}
+		heldMu.Unlock()
+	}()
+	go func() {
+		for {
+			c, err := bl.Accept()
+			if err != nil {
+				return
+			}
+			heldMu.Lock()
+			held = append(held, c)
+			heldMu.Unlock()
+		}
+	}()
 	outs := make([]lsnScnOut, len(in.Scns))
 	errs := make([]error, len(in.Scns))
 	var wg sync.WaitGroup
@@ -651,7 +693,7 @@ func runLsn(raw json.RawMessage) (interface{}, error) {
 		wg.Add(1)
 		go func(i int) {
 			defer wg.Done()
-			outs[i], errs[i] = runLsnScn(in.Scns[i], srv, "c"+strconv.Itoa(i)+"-")
+			outs[i], errs[i] = runLsnScn(in.Scns[i], srv, "c"+strconv.Itoa(i)+"-", bl.Addr().String())
 		}(i)
 	}
 	wg.Wait()
@@ -748,7 +790,7 @@ func genLsnScn(r *hx.Rand) lsnScn {
 			l.UI = true
 			l.Proto = []string{"", "https"}[r.Intn(2)]
 		} else {
-			l.Proto = []string{"", "https", "https", "grpcs", "prometheus"}[r.Intn(5)]
+			l.Proto = []string{"", "https", "https", "grpcs", "prometheus", "tcp", "https+tcp+sni"}[r.Intn(7)]
 		}
 		sc.Listeners = append(sc.Listeners, l)
 	}
@@ -766,7 +808,8 @@ func init() {
 			Listeners: []lsnL{{Src: 0, Strict: "true"}, {Src: 0, Strict: ""}, {Src: 0, Strict: "false", UI: true}},
 			Reqs:      []string{"a.example.com", "b.example.com", "unknown.example.com", ""}},
 		{Sources: []lsnSrc{{Type: "http", Certs: two, Epoch2: []lsnCert{}}},
-			Listeners: []lsnL{{Src: 0, Strict: "false", Proto: "https"}, {Src: 0, Strict: "true", Proto: "grpcs", Order: 1}},
+			Listeners: []lsnL{{Src: 0, Strict: "false", Proto: "https"}, {Src: 0, Strict: "true", Proto: "grpcs", Order: 1},
+				{Src: 0, Strict: "true", Proto: "tcp", Order: 2}, {Src: 0, Strict: "", Proto: "https+tcp+sni"}},
 			Reqs:      []string{"A.Example.Com", "unknown.example.com", ""}},
 		// the forgotten intermediate is appended while the process runs
 		{Sources: []lsnSrc{{Type: "path", Certs: []lsnCert{{File: "www", Pair: true, CN: "www.example.com", SANs: []string{lsnReady}}},
